@@ -3,10 +3,17 @@ package main
 import (
 	"fmt"
 	"go/ast"
+	"go/token"
 	"go/types"
 	"sort"
 	"strings"
+
+	"golang.org/x/tools/go/types/typeutil"
 )
+
+func typeutilCallee(info *types.Info, call *ast.CallExpr) types.Object {
+	return typeutil.Callee(info, call)
+}
 
 func init() {
 	register("C09", propC09)
@@ -759,6 +766,13 @@ func c10Pubrel(c *Ctx, v *vocab) {
 		return
 	}
 	sig := fi.Obj.Type().(*types.Signature)
+	// A PUBREL with the invalid id 0 cannot come off the wire when the PUBREL decoder rejects it; paths of
+	// the handler that are taken only for an invalid id are then outside the property's quantifier.
+	wireIDValid := c.decoderRejectsInvalidID(r, "Pubrel")
+	var idParam types.Object
+	if sig.Params().Len() > 0 {
+		idParam = sig.Params().At(0)
+	}
 	for _, early := range []bool{false, true} {
 		in := c.P.TraceFunc(fi, TraceOpts{Init: map[types.Object]Val{v.cfEarly: vBool(early), v.cfCallback: {K: VNonNil}}, NonNil: c.defOpts().NonNil})
 		if c.undecidedIfOver(r, in, fi.Name) {
@@ -797,6 +811,9 @@ func c10Pubrel(c *Ctx, v *vocab) {
 					continue
 				}
 				if (isStored == 1) != stored {
+					continue
+				}
+				if wireIDValid && pathNeedsInvalidID(fi, t, idParam) {
 					continue
 				}
 				n++
@@ -1284,4 +1301,143 @@ func c17Queue(c *Ctx, v *vocab) {
 		}
 		r.Check(fi.Name+":commandQueue<-", fi.Obj.Exported() && okAlt, fi.Decl.Pos(), len(in.Traces), "a command is queued from inside the service (re-queued commands overtake or fall behind later ones) or the enqueue can block for ever")
 	}
+}
+
+// pathNeedsInvalidID reports whether the path took the `id is not a valid packet id` side of a test on param.
+func pathNeedsInvalidID(fi *FuncInfo, t *Trace, param types.Object) bool {
+	if param == nil {
+		return false
+	}
+	info := fi.Pkg.TypesInfo
+	isParam := func(e ast.Expr) bool {
+		id, ok := ast.Unparen(e).(*ast.Ident)
+		return ok && info.ObjectOf(id) == param
+	}
+	for _, e := range t.Ev {
+		if e.Kind != EvCond || e.Cond == nil {
+			continue
+		}
+		switch x := ast.Unparen(e.Cond).(type) {
+		case *ast.CallExpr:
+			if sel, ok := x.Fun.(*ast.SelectorExpr); ok && isParam(sel.X) {
+				if f, ok := info.ObjectOf(sel.Sel).(*types.Func); ok && f.Name() == "Valid" && f.Pkg() != nil && f.Pkg().Name() == "packet" && !e.Outcome {
+					return true
+				}
+			}
+		case *ast.BinaryExpr:
+			if x.Op != token.EQL && x.Op != token.NEQ {
+				continue
+			}
+			other := x.Y
+			if !isParam(x.X) {
+				if !isParam(x.Y) {
+					continue
+				}
+				other = x.X
+			}
+			if tv, ok := info.Types[other]; ok && tv.Value != nil && tv.Value.String() == "0" {
+				if (x.Op == token.EQL) == e.Outcome {
+					return true
+				}
+			}
+		}
+	}
+	return false
+}
+
+// decoderRejectsInvalidID decides that (*packet.<typ>).Decode cannot succeed with an invalid (zero) packet
+// id: the decoding helper that receives the address of the ID field stores into it only a value that passed
+// ID.Valid() on the same path.
+func (c *Ctx) decoderRejectsInvalidID(r *Rule, typ string) bool {
+	dec := c.P.Func("packet.(*" + typ + ").Decode")
+	key := "packet.(*" + typ + ").Decode:rejects id 0"
+	if dec == nil {
+		r.Undecided(key, 0, "decoder not found")
+		return false
+	}
+	c.Touch(dec.Name)
+	idField := c.P.Field("packet", typ, "ID")
+	// find the helper that is handed &recv.ID
+	var helper *FuncInfo
+	argIdx := -1
+	ast.Inspect(dec.Decl.Body, func(n ast.Node) bool {
+		call, ok := n.(*ast.CallExpr)
+		if !ok {
+			return true
+		}
+		for i, a := range call.Args {
+			if u, ok := ast.Unparen(a).(*ast.UnaryExpr); ok && u.Op == token.AND {
+				if sel, ok := ast.Unparen(u.X).(*ast.SelectorExpr); ok && dec.Pkg.TypesInfo.ObjectOf(sel.Sel) == idField {
+					if f, ok := typeutilCallee(dec.Pkg.TypesInfo, call).(*types.Func); ok {
+						if h := c.P.ByObj[f]; h != nil {
+							helper, argIdx = h, i
+						}
+					}
+				}
+			}
+		}
+		return true
+	})
+	if helper == nil {
+		r.Undecided(key, dec.Decl.Pos(), "no decoding helper receives the address of the ID field (decoder reshaped)")
+		return false
+	}
+	c.Touch(helper.Name)
+	hsig := helper.Obj.Type().(*types.Signature)
+	if argIdx >= hsig.Params().Len() {
+		r.Undecided(key, dec.Decl.Pos(), "helper signature mismatch")
+		return false
+	}
+	ptr := hsig.Params().At(argIdx)
+	in := c.P.TraceFunc(helper, TraceOpts{})
+	if in.Over {
+		r.Undecided(key, helper.Decl.Pos(), "path budget exhausted")
+		return false
+	}
+	info := helper.Pkg.TypesInfo
+	var bad *Trace
+	nsucc := 0
+	for _, t := range in.Traces {
+		if !t.success() {
+			continue
+		}
+		nsucc++
+		// the object stored through the pointer
+		var stored types.Object
+		nstores := 0
+		for _, e := range t.Ev {
+			if e.Kind == EvAssign && e.LHS != nil {
+				if st, ok := ast.Unparen(e.LHS).(*ast.StarExpr); ok {
+					if id, ok := ast.Unparen(st.X).(*ast.Ident); ok && info.ObjectOf(id) == ptr {
+						nstores++
+						if rid, ok := ast.Unparen(e.RHS).(*ast.Ident); ok {
+							stored = info.ObjectOf(rid)
+						}
+					}
+				}
+			}
+		}
+		valid := false
+		for _, e := range t.Ev {
+			if e.Kind != EvCond || !e.Outcome {
+				continue
+			}
+			if call, ok := ast.Unparen(e.Cond).(*ast.CallExpr); ok {
+				if sel, ok := call.Fun.(*ast.SelectorExpr); ok {
+					if f, ok := info.ObjectOf(sel.Sel).(*types.Func); ok && f.Name() == "Valid" {
+						if id, ok := ast.Unparen(sel.X).(*ast.Ident); ok && stored != nil && info.ObjectOf(id) == stored {
+							valid = true
+						}
+					}
+				}
+			}
+		}
+		if nstores != 1 || !valid {
+			bad = t
+		}
+	}
+	ok := bad == nil && nsucc > 0
+	r.Check(key, ok, helper.Decl.Pos(), len(in.Traces),
+		"every successful decode stores an id that passed ID.Valid(): a PUBREL with id 0 never reaches the handler, so the handler's id-invalid branch is outside the quantifier", c.witness(bad)...)
+	return ok
 }
